@@ -1045,6 +1045,11 @@ func cmdBrokerReplay(a Args) {
 		if err := json.Unmarshal(line, &steps); err != nil {
 			return err
 		}
+		// the verdict is clear after many diverging behaviours (each may cost several time-outs): skip the rest of the shard
+		if res.Counts["known:"] >= 40 {
+			res.Counts["skipped_after_violation"]++
+			return nil
+		}
 		res.Evaluations++
 		m := runBehaviour(steps, auth, maxqos, res)
 		// a barrier that timed out is a liveness observation: it must reproduce
